@@ -233,7 +233,7 @@ func LoadEngine(prop, tier string, seed int64) *Engine {
 		for _, m := range sp.Members {
 			if f, ok := m.(*ssa.Function); ok {
 				pos := prog.Fset.Position(f.Pos())
-				if filepath.Base(pos.Filename) == "zz_verif_shim.go" {
+				if filepath.Base(pos.Filename) == "zz_verif_shim.go" || (f.Name() == "vXMLScript" && strings.HasPrefix(filepath.Base(pos.Filename), "zz_verif_")) {
 					e.prims[f] = true
 				}
 			}
